@@ -200,7 +200,7 @@ func paillierFaultBody(x *engine.X) {
 		case err == nil:
 			x.Failf("indcpa/paillier/open/accepts-"+fieldOf(what), "%s: Open ACCEPTED after lone change %s", id, what)
 		default:
-			lt["reject"]++
+			lt["reject-"+fieldOf(what)]++
 		}
 	}
 	for _, ch := range residueChanges(m, k.n, msgs) {
@@ -254,7 +254,7 @@ func paillierFaultBody(x *engine.X) {
 			x.Failf("indcpa/paillier/open/accepts-key", "%s: Open ACCEPTED under the changed key %s (N'=%s)", id, what, short(n2))
 			return
 		}
-		lt["reject"]++
+		lt["reject-key"]++
 	}
 	for b := 0; b <= k.n.BitLen(); b++ {
 		n2 := new(big.Int).Set(k.n)
@@ -275,6 +275,19 @@ func paillierFaultBody(x *engine.X) {
 			x.Failf("indcpa/paillier/Commit/err", "%s: commitments.Commit failed: %v", id, err)
 		} else if refPaillier(k.n, m, W3.Value().Value().Value().Big()).Cmp(C3.Value().Value().Value().Big()) != 0 || key.Open(C3, M, W3) != nil {
 			x.Failf("indcpa/paillier/Commit/value", "%s: commitments.Commit output does not open / differs from the definition", id)
+		}
+	}
+	if wi == len(wits)-1 {
+		C4, shift, err := commitments.ReRandomise(key, C, newStream(id+"/ReRandomise"))
+		x.Case(id + "/ReRandomise")
+		if err != nil {
+			x.Failf("indcpa/paillier/ReRandomise/err", "%s: commitments.ReRandomise failed: %v", id, err)
+		} else {
+			r4 := mod(new(big.Int).Mul(r, shift.Value().Value().Value().Big()), k.n)
+			W4, err := key.WitnessOp(W, shift)
+			if err != nil || refPaillier(k.n, m, r4).Cmp(C4.Value().Value().Value().Big()) != 0 || key.Open(C4, M, W4) != nil {
+				x.Failf("indcpa/paillier/ReRandomise/value", "%s: re-randomised commitment does not open to (m, w·shift) (err=%v)", id, err)
+			}
 		}
 	}
 	if key.Open(nil, M, W) == nil || key.Open(C, nil, W) == nil || key.Open(C, M, nil) == nil {
@@ -396,7 +409,7 @@ func elgamalFaultBody(c *curveCtx[*k256.Point, *k256.Scalar]) func(*engine.X) {
 			case err == nil:
 				x.Failf("indcpa/elgamal/open/accepts-"+fieldOf(what), "%s: Open ACCEPTED after lone change %s", id, what)
 			default:
-				lt["reject"]++
+				lt["reject-"+fieldOf(what)]++
 			}
 		}
 		crossCheck := func(what string, valid bool, h2, m2 refPoint, r2 *big.Int, d1, d2 refPoint) {
@@ -464,6 +477,20 @@ func elgamalFaultBody(c *curveCtx[*k256.Point, *k256.Scalar]) func(*engine.X) {
 				cc := C3.Value().Value().Components()
 				if !c.ref.eq(c.affine(cc[0]), w1) || !c.ref.eq(c.affine(cc[1]), w2) || key.Open(C3, M, W3) != nil {
 					x.Failf("indcpa/elgamal/Commit/value", "%s: commitments.Commit output does not open / differs from the definition", id)
+				}
+			}
+		}
+		if wi == len(wits)-1 {
+			C4, shift, err := commitments.ReRandomise(key, C, newStream(id+"/ReRandomise"))
+			x.Case(id + "/ReRandomise")
+			if err != nil {
+				x.Failf("indcpa/elgamal/ReRandomise/err", "%s: commitments.ReRandomise failed: %v", id, err)
+			} else {
+				w1, w2 := ref(h, ma, new(big.Int).Add(r, c.scalarBig(shift.Value().Value())))
+				cc := C4.Value().Value().Components()
+				W4, err := key.WitnessOp(W, shift)
+				if err != nil || !c.ref.eq(c.affine(cc[0]), w1) || !c.ref.eq(c.affine(cc[1]), w2) || key.Open(C4, M, W4) != nil {
+					x.Failf("indcpa/elgamal/ReRandomise/value", "%s: re-randomised commitment does not open to (m, w+shift) (err=%v)", id, err)
 				}
 			}
 		}
